@@ -4,14 +4,16 @@ Property theorems only (model and spec: KinModel/Response.lean; helper lemmas: K
 
 Full-strength statement (the goal shape):
     ∀ canon o i, (validateResponse canon o i).err = none ↔ Accept canon o i
-It is proved below as `accept_iff_partial` outside three decidable exclusion classes in which the code
+It is proved below as `accept_iff_partial` outside two decidable exclusion classes in which the code
 really deviates from the property text (each with a kernel-checked witness, replayed on the Go code):
   HdrDecodedNil     a present header whose decoding gives no value is validated as `null`
-  HdrNotAsResponse  headers are visited without VisitAsResponse
   EmptyMapStrict    empty responses map under IncludeResponseStatus
-A fourth class (WriteOnlyNull, finding F-C08-4: a write-only property carrying `null` in the body was not
-reported) was repaired in the repository (commit e80060c); its exclusion is gone, `visit_asrep_iff` holds at
-full strength, and the former witness is kept as the regression theorems `writeOnly_null_rejected*`.
+Two former classes were repaired in the repository; their exclusions are gone and the former witnesses are
+regression theorems (model = spec on them, inputs kept in corpus/C08):
+  WriteOnlyNull     (F-C08-4, commit e80060c) a write-only property carrying `null` in the body was not reported;
+                    `visit_asrep_iff` holds at full strength; `writeOnly_null_rejected*`
+  HdrNotAsResponse  (F-C08-2, commit 35101a0) headers were visited without VisitAsResponse;
+                    `header_writeOnly_rejected`, `header_required_writeOnly_absent_accepted`
 -/
 import KinModel.Lemmas.C08
 namespace KinModel.Response
@@ -69,7 +71,8 @@ required, read-only ones unconstrained. For every schema and value of the fragme
 theorem visit_asrep_iff (w : Bool) (v : J) (s : Sch) : visit ⟨true, w⟩ v s = true ↔ SatRep w v s := by
   rw [visit_asrep_eq_satRepB w v s]; exact satRepB_iff w v s
 
-/-- A value that reaches no write-only declaration is judged the same with and without VisitAsResponse. -/
+/-- A value that reaches no write-only declaration is judged the same with and without VisitAsResponse
+(what made the repair of F-C08-2 invisible for headers of primitive type). -/
 theorem visit_plain_eq_asrep_untouched (w : Bool) (v : J) (s : Sch) (h : woTouched v s = false) :
     visit ⟨false, w⟩ v s = visit ⟨true, w⟩ v s := visit_plain_eq_asrep w v s h
 
@@ -139,7 +142,7 @@ theorem acceptB_iff (canon : String → String) (o : Opts) (i : Input) :
     · cases o.excludeBody <;> simp
 
 /-- **C08 main theorem.** Full strength: `(validateResponse canon o i).err = none ↔ Accept canon o i` for every
-response map, status, header set, content type, body, decoding outcome and option set. Proved outside the three
+response map, status, header set, content type, body, decoding outcome and option set. Proved outside the two
 exclusion classes (each has a witness below): the response passes exactly when it is skipped (HEAD, 301/304/307/308),
 or no entry is selected and strictness is off, or — against the entry selected by exact code, class pattern,
 default — every declared header other than Content-Type is present-and-valid or absent-and-optional, and
@@ -149,7 +152,7 @@ theorem accept_iff_partial (canon : String → String) (o : Opts) (i : Input)
     (hx : Excluded canon o i = false) :
     (validateResponse canon o i).err = none ↔ Accept canon o i := by
   simp only [Excluded, Bool.or_eq_false_iff] at hx
-  obtain ⟨⟨hx1, hx2⟩, hx3⟩ := hx
+  obtain ⟨hx1, hx3⟩ := hx
   by_cases hm : i.method = "HEAD"
   · simp [validateResponse, Accept, hm, Skipped]
   · cases hs : skipStatus i.status with
@@ -180,27 +183,21 @@ theorem accept_iff_partial (canon : String → String) (o : Opts) (i : Input)
         | some r =>
           rw [validateResponse_selected canon o i r hm hs he hsel]
           have hex : ∀ h, h ∈ r.headers → h.name ≠ "Content-Type" →
-              hdrDecodedNil canon i.hdrs h = false ∧ hdrWriteOnly canon i.hdrs h = false := by
+              hdrDecodedNil canon i.hdrs h = false := by
             intro h hmem hn
-            constructor
-            · simp only [HdrDecodedNil, anyHdr, hsel, List.any_eq_false] at hx1
-              have := hx1 h hmem
-              simpa [hn] using this
-            · simp only [HdrNotAsResponse, anyHdr, hsel, List.any_eq_false] at hx2
-              have := hx2 h hmem
-              simpa [hn] using this
+            simp only [HdrDecodedNil, anyHdr, hsel, List.any_eq_false] at hx1
+            have := hx1 h hmem
+            simpa [hn] using this
           have hh : firstErr (checkHeader canon o.woOff i.hdrs) (checkedHeaders r) = none ↔
               ∀ h, h ∈ r.headers → h.name ≠ "Content-Type" → HeaderOK canon o.woOff i.hdrs h := by
             rw [firstErr_none_iff]
             constructor
             · intro hall h hmem hn
-              obtain ⟨e1, e2⟩ := hex h hmem hn
-              exact (checkHeader_iff canon o.woOff i.hdrs h e1 e2).mp
+              exact (checkHeader_iff canon o.woOff i.hdrs h (hex h hmem hn)).mp
                 (hall h ((mem_checkedHeaders r h).mpr ⟨hmem, hn⟩))
             · intro hall h hmem
               obtain ⟨hmem, hn⟩ := (mem_checkedHeaders r h).mp hmem
-              obtain ⟨e1, e2⟩ := hex h hmem hn
-              exact (checkHeader_iff canon o.woOff i.hdrs h e1 e2).mpr (hall h hmem hn)
+              exact (checkHeader_iff canon o.woOff i.hdrs h (hex h hmem hn)).mpr (hall h hmem hn)
           cases hf : firstErr (checkHeader canon o.woOff i.hdrs) (checkedHeaders r) with
           | some e =>
             have hne : ¬ (∀ h, h ∈ r.headers → h.name ≠ "Content-Type" → HeaderOK canon o.woOff i.hdrs h) := by
@@ -291,10 +288,25 @@ theorem witness_HdrDecodedNil :
 def pwHdrSchema : Sch :=
   .mk { ty := .object } (.cons "pw" (.mk { ty := .string, writeOnly := true } .nil .none .none) .nil) .none .none
 
-/-- `X-A: pw,x` against an object header schema whose property `pw` is write-only: accepted. -/
-theorem witness_HdrNotAsResponse :
+/-- Regression (F-C08-2, fixed in 35101a0): `X-A: pw,x` against an object header schema whose property `pw` is
+write-only is rejected by the model and by the spec, lies in no exclusion class, and is accepted again when the
+write-only checks are switched off. -/
+theorem header_writeOnly_rejected :
     let i := inp [("200", ⟨[strHdr pwHdrSchema (.val (.obj (.cons "pw" (.str "x") .nil)))], []⟩)] [("X-A", "pw,x")] .err
-    HdrNotAsResponse id i = true ∧ (validateResponse id {} i).err = none ∧ acceptB id {} i = false := by
+    Excluded id {} i = false ∧ (validateResponse id {} i).err = some (.hdrSchema "X-A") ∧ acceptB id {} i = false ∧
+      (validateResponse id { woOff := true } i).err = none ∧ acceptB id { woOff := true } i = true := by
+  decide
+
+def pwReqHdrSchema : Sch :=
+  .mk { ty := .object, required := ["pw"] }
+    (.cons "n" (.mk { ty := .string } .nil .none .none)
+      (.cons "pw" (.mk { ty := .string, writeOnly := true } .nil .none .none) .nil)) .none .none
+
+/-- Regression (F-C08-2, second half): a header object that (rightly) omits its required write-only property is
+accepted by the model and by the spec. -/
+theorem header_required_writeOnly_absent_accepted :
+    let i := inp [("200", ⟨[strHdr pwReqHdrSchema (.val (.obj (.cons "n" (.str "x") .nil)))], []⟩)] [("X-A", "n,x")] .err
+    Excluded id {} i = false ∧ (validateResponse id {} i).err = none ∧ acceptB id {} i = true := by
   decide
 
 /-- Empty responses map, IncludeResponseStatus: accepted although no entry defines the status. -/
